@@ -103,5 +103,18 @@ class OverlayProject(Project):
         _l.open = fake_open
         try:
             super()._load()
+            # files that only exist in the overlay (a patch that adds a module)
+            for ap, src in overlay.items():
+                if not os.path.exists(ap) and ap.endswith(".py"):
+                    rel = os.path.relpath(ap, os.path.abspath(self.root))
+                    modname = rel[:-3].replace(os.sep, ".")
+                    if modname.endswith(".__init__"):
+                        modname = modname[:-9]
+                    try:
+                        mod = _l.Module(modname, ap, rel, src)
+                    except SyntaxError as e:
+                        raise AnalysisError(f"cannot parse {rel}: {e}")
+                    self.modules[modname] = mod
+                    self._index(mod)
         finally:
             del _l.open
